@@ -94,7 +94,14 @@ def splice(ctext, spec, group, fninfo):
         if (n, i) in spec.loops and group.get('loops', 'contracts') == 'contracts':
             used.add(('l', n, i)); return spec.loops[(n, i)]
         return ''
+    # opaque types the spec's stubs mention but this extraction no longer produces (the repository stopped using them):
+    # declare them, so that an unused stub does not make the whole check undecided
+    have = set(re.findall(r'\}\s*(opq_\w+)\s*;', ctext))
+    need = set(re.findall(r'\bopq_\w+\b', '\n'.join(spec.prelude) + group.body)) - have
+    need = {x for x in need if not re.search(r'\b%s\s*\(' % re.escape(x), '\n'.join(spec.prelude) + group.body + ctext)}     # type names only, not stub function names
+    fallback = ''.join('typedef struct { int id; } %s; /* not used by the extracted code any more */\n' % x for x in sorted(need))
     out = ctext.replace('/*@PRELUDE0@*/', defs + '\n'.join(spec.prelude0))
+    if fallback: out = out.replace('/*@PRELUDE@*/', fallback + '/*@PRELUDE@*/', 1)
     out = out.replace('/*@PRELUDE@*/', '\n'.join(spec.prelude))
     out = re.sub(r'/\*@CONTRACT:(\w+)@\*/', sub_contract, out)
     out = re.sub(r'/\*@LOOP:(\w+):(\d+)@\*/', sub_loop, out)
